@@ -89,6 +89,8 @@ def nest(scs, rnd, frac, marks=False):
             elif k == 3:
                 inner["before"] = ["s1"]
         s2["sub"] = {n: inner}
+        if s2["mode"] == "pregel" and (s2.get("max", 0) == 0 or s2["max"] > 4):
+            s2["max"] = 4             # terms double per step when an inner fan-in sits in an outer cycle: keep such runs short
         s2["fam"] = sc.get("fam", "") + "+nest"
         out.append(s2)
     return out
@@ -252,7 +254,7 @@ def c01(tier, repo=None):
                 ("p2m", consts("pregel", 2, 4, 1, 2, multi=True, maxchoice=(0, 2), ends=3), {}),
                 ("p4s", consts("pregel", 4, 7, 2, 2, multi=True, maxchoice=(5,), ends=3), {"simulate": "num=60000", "depth": 14, "seed": vlib.SEED, "workers": 1})]
         models = ["MC_EinoRun_pregel2.cfg", "MC_EinoRun_pregel3.cfg"]
-    return run_engine_check("C01", tier, model_cfgs=models, families=fams, decorate_kw={}, nontrivial=nontrivial,
+    return run_engine_check("C01", tier, model_cfgs=models, families=fams, decorate_kw={"echo_frac": 0.12}, nontrivial=nontrivial,
                             nest_frac=0.08, repo=repo,
                             assumptions=["graphs in which an edge and a branch of one source target the same node are outside the universe"])
 
@@ -292,7 +294,8 @@ def _intr_families(tier):
     if tier == "quick":
         return [("ip2", consts("pregel", 2, 3, 1, 2, marks=2, rerun=True, maxchoice=(3,)), {}),
                 ("id3", consts("dag", 3, 3, 1, 0, marks=2, rerun=True), {}),
-                ("iw3", consts("wf", 3, 3, 1, 0, marks=1, rerun=True), {})], 30000
+                ("iw3", consts("wf", 3, 4, 0, 0, marks=2, rerun=True), {}),
+                ("iw3b", consts("wf", 3, 3, 1, 0, marks=1, rerun=True), {})], 36000
     return [("ip2", consts("pregel", 2, 4, 1, 2, marks=2, rerun=True, multi=True, maxchoice=(3,)), {"timeout": 1800}),
             ("ip3", consts("pregel", 3, 3, 1, 1, marks=2, rerun=True, maxchoice=(3,)), {"timeout": 1800}),
             ("id3", consts("dag", 3, 4, 1, 0, marks=2, rerun=True, multi=True), {"timeout": 1800}),
@@ -318,6 +321,7 @@ def c06(tier, repo=None):
         """an interrupt was returned (before / after / rerun / nested)"""
         return _has(obs, "interrupt")
     fams, limit = _intr_families(tier)
+    fams = fams + [("if2", consts("pregel", 2, 3, 1, 1, marks=1, fail=True, maxchoice=(3,)), {})]     # errors must not write a checkpoint
     return run_engine_check("C06", tier, model_cfgs=["MC_EinoRun_pregel2.cfg"] + (["MC_EinoRun_dag3.cfg"] if tier == "thorough" else []),
                             families=fams, decorate_kw={"noid_frac": 0.12, "state_frac": 0.3}, nontrivial=nontrivial, nest_frac=0.12,
                             nest_marks=True, limit=limit, repo=repo,
